@@ -306,8 +306,6 @@ Qed.
 (* ------------------------------------------------------------------------------------------ *)
 (* bytes AFTER the hello inside the same handshake buffer: the extension block is dropped      *)
 (* ------------------------------------------------------------------------------------------ *)
-Definition without_exts (h : hello) : hello :=
-  mkHello (h_version h) (h_random h) (h_sid h) (h_ciphers h) (h_comp h) [].
 
 (* parseRawClientHello insists that the extensions length equals what is left of its input
    ("the data is expected to contain ONLY the ClientHello"): with any non-empty garbage behind
@@ -438,4 +436,255 @@ Proof.
   unfold all_bytes at 2 4. cbn [forallb]. rewrite ?Hs, ?Hc.
   repeat match goal with X : all_bytes _ = true |- _ => rewrite X; clear X end.
   reflexivity.
+Qed.
+
+(* ------------------------------------------------------------------------------------------ *)
+(* truncation: every strict prefix of an encoding is recorded as a prefix of the fields         *)
+(* ------------------------------------------------------------------------------------------ *)
+
+Lemma front_length l3 v rnd sid cs cm : length l3 = 3%nat -> length rnd = 32%nat ->
+  length (hello_front l3 v rnd sid cs cm) = (42 + length sid + 2 * length cs + length cm)%nat.
+Proof.
+  intros H3 Hr. unfold hello_front, be16.
+  repeat first [rewrite app_length | progress cbn [length app]].
+  rewrite enc_u16s_length, H3, Hr. lia.
+Qed.
+
+(* a hello cut anywhere after its compression methods (inside the extensions length or the
+   extension block) is recorded without extensions *)
+Lemma parse_truncated_exts h k : hello_wf h = true ->
+  (42 + length (h_sid h) + 2 * length (h_ciphers h) + length (h_comp h) <= k)%nat ->
+  (k < length (encode_hello h))%nat ->
+  parse_raw_client_hello (firstn k (encode_hello h)) = Ok (info_of (without_exts h)).
+Proof.
+  intros Hwf Hk1 Hk2. destruct (hello_wf_parts h Hwf) as (Hr & Hs & He).
+  rewrite hello_body_front in *.
+  set (front := hello_front (be24 (nlen (hello_body h))) (h_version h) (h_random h) (h_sid h) (h_ciphers h) (h_comp h)) in *.
+  assert (Hfl : length front = (42 + length (h_sid h) + 2 * length (h_ciphers h) + length (h_comp h))%nat)
+    by (apply front_length; auto).
+  rewrite firstn_app, firstn_all2 by lia.
+  unfold front. rewrite parse_front by (auto; reflexivity). fold front.
+  rewrite app_length in Hk2. unfold be16 in *. cbn [app length] in Hk2.
+  set (j := (k - length front)%nat) in *.
+  assert (Hj : (j < 2 + length (enc_exts (h_exts h)))%nat) by lia.
+  unfold parse_tail. cbn [app].
+  destruct j as [|[|j]].
+  - reflexivity.
+  - reflexivity.
+  - cbn [firstn length]. change (S (S (length (firstn j (enc_exts (h_exts h))))) <? 2)%nat with false. cbv iota.
+    cbn [idx nth_error rbind]. rewrite u16_be16, nlen_nat, slice_from_cons2. cbn [rbind].
+    rewrite firstn_length.
+    replace (length (enc_exts (h_exts h)) =? Nat.min j (length (enc_exts (h_exts h))))%nat with false
+      by (symmetry; apply Nat.eqb_neq; lia).
+    reflexivity.
+Qed.
+
+(* ---- the parser in stages ---- *)
+Definition p2 (inf2 : info) (data2 : bytes) : res info :=
+  if (length data2 <? 1)%nat then Ok inf2 else
+  do m0 <- idx data2 0;
+  let cmlen := N.to_nat m0 in
+  if (length data2 <? 1 + cmlen)%nat then Ok inf2 else
+  do cm <- slice data2 1 (1 + cmlen);
+  let inf3 := set_comp inf2 cm in
+  do data3 <- slice_from data2 (1 + cmlen);
+  parse_tail inf3 data3.
+Definition p1 (inf : info) (data1 : bytes) : res info :=
+  if (length data1 <? 2)%nat then Ok inf else
+  do c0 <- idx data1 0; do c1 <- idx data1 1;
+  let cslen := N.to_nat (u16 c0 c1) in
+  if Nat.odd cslen || (length data1 <? 2 + cslen)%nat then Ok inf else
+  do cs <- mapM (cipher_at data1) (seq 0 (Nat.div2 cslen));
+  let inf2 := set_ciphers inf cs in
+  do data2 <- slice_from data1 (2 + cslen);
+  p2 inf2 data2.
+Lemma parse_unfold data :
+  parse_raw_client_hello data =
+  if (length data <? 42)%nat then Ok info0 else
+  do v0 <- idx data 4; do v1 <- idx data 5;
+  let inf := set_version info0 (u16 v0 v1) in
+  do sl <- idx data 38;
+  let sidlen := N.to_nat sl in
+  if (32 <? sidlen)%nat || (length data <? 39 + sidlen)%nat then Ok inf else
+  do data1 <- slice_from data (39 + sidlen); p1 inf data1.
+Proof. reflexivity. Qed.
+
+Definition vinfo (v : N) : info := mkInfo v [] [] [] [] [].
+
+(* the fixed part up to and including the session id, possibly cut inside the session id *)
+Lemma parse_head l3 v rnd sid sidpart x :
+  length l3 = 3%nat -> length rnd = 32%nat -> (length sid <= 32)%nat ->
+  (42 <= 39 + length sidpart + length x)%nat ->
+  (sidpart = sid \/ (length sidpart < length sid /\ x = []))%nat ->
+  parse_raw_client_hello ((1 :: l3 ++ be16 v ++ rnd ++ nlen sid :: sidpart) ++ x) =
+  if (length sidpart <? length sid)%nat then Ok (vinfo v) else p1 (vinfo v) x.
+Proof.
+  intros H3 Hr Hs H42 Hcase.
+  destruct l3 as [|a0 [|a1 [|a2 [|? ?]]]]; try discriminate. clear H3.
+  unfold be16. cbn [app].
+  set (data := 1 :: a0 :: a1 :: a2 :: v / 256 :: v mod 256 :: (rnd ++ nlen sid :: sidpart) ++ x).
+  assert (Hdata : data = (1 :: a0 :: a1 :: a2 :: v / 256 :: v mod 256 :: rnd) ++ nlen sid :: sidpart ++ x).
+  { unfold data. cbn [app]. rewrite <- !app_assoc. reflexivity. }
+  assert (Hlen : length data = (39 + length sidpart + length x)%nat).
+  { rewrite Hdata. cbn [app length]. rewrite !app_length. cbn [length]. rewrite !app_length. lia. }
+  rewrite parse_unfold.
+  replace (length data <? 42)%nat with false by (symmetry; apply Nat.ltb_ge; lia).
+  change (idx data 4) with (Ok (v / 256)). change (idx data 5) with (Ok (v mod 256)).
+  cbn [rbind]. rewrite u16_be16.
+  rewrite Hdata at 1. rewrite idx_app_len' by (cbn [length]; lia). cbn [rbind]. rewrite nlen_nat.
+  replace (32 <? length sid)%nat with false by (symmetry; apply Nat.ltb_ge; lia). cbn [orb].
+  rewrite Hlen.
+  destruct Hcase as [->|[Hlt ->]].
+  - replace (39 + length sid + length x <? 39 + length sid)%nat with false by (symmetry; apply Nat.ltb_ge; lia).
+    replace (length sid <? length sid)%nat with false by (symmetry; apply Nat.ltb_ge; lia).
+    assert (Hd1 : slice_from data (39 + length sid) = Ok x).
+    { rewrite Hdata.
+      replace ((1 :: a0 :: a1 :: a2 :: v / 256 :: v mod 256 :: rnd) ++ nlen sid :: sid ++ x)
+        with (((1 :: a0 :: a1 :: a2 :: v / 256 :: v mod 256 :: rnd) ++ nlen sid :: sid) ++ x)
+        by (rewrite <- app_assoc; reflexivity).
+      apply slice_from_app_len. rewrite app_length. cbn [length]. lia. }
+    rewrite Hd1. reflexivity.
+  - cbn [length]. 
+    replace (39 + length sidpart + 0 <? 39 + length sid)%nat with true by (symmetry; apply Nat.ltb_lt; lia).
+    replace (length sidpart <? length sid)%nat with true by (symmetry; apply Nat.ltb_lt; lia).
+    reflexivity.
+Qed.
+
+Definition cipher_block (cs : list N) : bytes := be16 (2 * N.of_nat (length cs)) ++ enc_u16s cs.
+Lemma cipher_block_length cs : length (cipher_block cs) = (2 + 2 * length cs)%nat.
+Proof. unfold cipher_block, be16. cbn [app length]. rewrite enc_u16s_length. lia. Qed.
+
+Lemma p1_full inf cs y : p1 inf (cipher_block cs ++ y) = p2 (set_ciphers inf cs) y.
+Proof.
+  unfold p1. rewrite app_length, cipher_block_length.
+  replace (2 + 2 * length cs + length y <? 2)%nat with false by (symmetry; apply Nat.ltb_ge; lia).
+  unfold cipher_block, be16. cbn [app idx nth_error rbind].
+  rewrite u16_be16, two_n_nat, odd_double, div2_double'.
+  replace (2 + 2 * length cs + length y <? 2 + 2 * length cs)%nat with false by (symmetry; apply Nat.ltb_ge; lia).
+  cbn [orb].
+  assert (Hcs : mapM (cipher_at (2 * N.of_nat (length cs) / 256 :: (2 * N.of_nat (length cs)) mod 256 :: enc_u16s cs ++ y))
+                     (seq 0 (length cs)) = Ok cs).
+  { apply (mapM_nth _ cs 0). intros i Hi. apply cipher_at_enc; [exact []|exact Hi]. }
+  rewrite Hcs. cbn [rbind].
+  replace (2 * N.of_nat (length cs) / 256 :: (2 * N.of_nat (length cs)) mod 256 :: enc_u16s cs ++ y)
+    with ((2 * N.of_nat (length cs) / 256 :: (2 * N.of_nat (length cs)) mod 256 :: enc_u16s cs) ++ y) by reflexivity.
+  rewrite slice_from_app_len by (cbn [length]; rewrite enc_u16s_length; lia).
+  reflexivity.
+Qed.
+
+Lemma p1_cut inf cs y j : (j < 2 + 2 * length cs)%nat -> p1 inf (firstn j (cipher_block cs ++ y)) = Ok inf.
+Proof.
+  intro Hj. unfold p1.
+  assert (Hl : length (firstn j (cipher_block cs ++ y)) = j).
+  { rewrite firstn_length, app_length, cipher_block_length. lia. }
+  rewrite Hl. destruct (j <? 2)%nat eqn:E2; [reflexivity|]. apply Nat.ltb_ge in E2.
+  destruct j as [|[|j]]; try lia.
+  unfold cipher_block, be16. cbn [app firstn idx nth_error rbind].
+  rewrite u16_be16, two_n_nat, odd_double.
+  replace (S (S j) <? 2 + 2 * length cs)%nat with true by (symmetry; apply Nat.ltb_lt; lia).
+  reflexivity.
+Qed.
+
+Lemma p2_full inf cm z : p2 inf (nlen cm :: cm ++ z) = parse_tail (set_comp inf cm) z.
+Proof.
+  unfold p2. cbn [length]. change (S (length (cm ++ z)) <? 1)%nat with false. cbv iota.
+  cbn [idx nth_error rbind]. rewrite nlen_nat, app_length.
+  replace (S (length cm + length z) <? 1 + length cm)%nat with false by (symmetry; apply Nat.ltb_ge; lia).
+  rewrite slice_ok by (cbn [length]; rewrite ?app_length; lia).
+  cbn [rbind skipn]. replace (1 + length cm - 1)%nat with (length cm) by lia. rewrite firstn_prefix.
+  change (slice_from (nlen cm :: cm ++ z) (1 + length cm)) with (slice_from ((nlen cm :: cm) ++ z) (1 + length cm)).
+  rewrite slice_from_app_len by reflexivity. reflexivity.
+Qed.
+
+Lemma p2_cut inf cm z j : (j < 1 + length cm)%nat -> p2 inf (firstn j (nlen cm :: cm ++ z)) = Ok inf.
+Proof.
+  intro Hj. unfold p2.
+  assert (Hl : length (firstn j (nlen cm :: cm ++ z)) = j).
+  { rewrite firstn_length. cbn [length]. rewrite app_length. lia. }
+  rewrite Hl. destruct j as [|j]; [reflexivity|].
+  change (S j <? 1)%nat with false. cbv iota. cbn [firstn idx nth_error rbind]. rewrite nlen_nat.
+  replace (S j <? 1 + length cm)%nat with true by (symmetry; apply Nat.ltb_lt; lia).
+  reflexivity.
+Qed.
+
+Lemma tail_cut inf n exts j : n = nlen exts -> (j < 2 + length exts)%nat ->
+  parse_tail inf (firstn j (be16 n ++ exts)) = Ok inf.
+Proof.
+  intros -> Hj. unfold parse_tail, be16. cbn [app].
+  destruct j as [|[|j]]; [reflexivity|reflexivity|].
+  cbn [firstn length]. change (S (S (length (firstn j exts))) <? 2)%nat with false. cbv iota.
+  cbn [idx nth_error rbind]. rewrite u16_be16, nlen_nat, slice_from_cons2. cbn [rbind].
+  rewrite firstn_length.
+  replace (length exts =? Nat.min j (length exts))%nat with false by (symmetry; apply Nat.eqb_neq; lia).
+  reflexivity.
+Qed.
+
+Lemma encode_split h :
+  encode_hello h =
+  (1 :: be24 (nlen (hello_body h)) ++ be16 (h_version h) ++ h_random h ++ nlen (h_sid h) :: h_sid h) ++
+  cipher_block (h_ciphers h) ++ (nlen (h_comp h) :: h_comp h ++ be16 (nlen (enc_exts (h_exts h))) ++ enc_exts (h_exts h)).
+Proof.
+  unfold encode_hello, hello_body, cipher_block. cbn [app]. f_equal.
+  repeat (rewrite <- app_assoc; cbn [app]). reflexivity.
+Qed.
+
+Lemma parse_prefix h k : hello_wf h = true -> (k < length (encode_hello h))%nat ->
+  parse_raw_client_hello (firstn k (encode_hello h)) = Ok (stage_info h (cut_stage h k)).
+Proof.
+  intros Hwf Hk. destruct (hello_wf_parts h Hwf) as (Hr & Hs & He).
+  unfold cut_stage.
+  destruct (k <? 42)%nat eqn:E42.
+  { apply Nat.ltb_lt in E42. unfold parse_raw_client_hello.
+    rewrite firstn_length.
+    replace (Nat.min k (length (encode_hello h)) <? 42)%nat with true by (symmetry; apply Nat.ltb_lt; lia).
+    reflexivity. }
+  apply Nat.ltb_ge in E42.
+  rewrite encode_split in *.
+  set (l3 := be24 (nlen (hello_body h))) in *.
+  set (P := 1 :: l3 ++ be16 (h_version h) ++ h_random h ++ nlen (h_sid h) :: h_sid h) in *.
+  set (B1 := cipher_block (h_ciphers h)) in *.
+  set (R := nlen (h_comp h) :: h_comp h ++ be16 (nlen (enc_exts (h_exts h))) ++ enc_exts (h_exts h)) in *.
+  assert (HP : length P = (39 + length (h_sid h))%nat).
+  { unfold P, l3, be24, be16. cbn [app length]. rewrite app_length. cbn [length]. lia. }
+  assert (HB1 : length B1 = (2 + 2 * length (h_ciphers h))%nat) by apply cipher_block_length.
+  assert (HR : length R = (1 + length (h_comp h) + 2 + length (enc_exts (h_exts h)))%nat).
+  { unfold R, be16. cbn [app length]. rewrite app_length. cbn [length]. lia. }
+  rewrite !app_length in Hk.
+  destruct (k <? 39 + length (h_sid h))%nat eqn:EP.
+  { (* cut inside the session id *)
+    apply Nat.ltb_lt in EP.
+    replace (k <? 41 + length (h_sid h) + 2 * length (h_ciphers h))%nat with true by (symmetry; apply Nat.ltb_lt; lia).
+    rewrite firstn_app. replace (k - length P)%nat with 0%nat by lia. cbn [firstn]. 
+    assert (HPk : firstn k P = (1 :: l3 ++ be16 (h_version h) ++ h_random h ++ nlen (h_sid h) :: firstn (k - 39) (h_sid h))).
+    { unfold P, l3, be24, be16. cbn [app].
+      destruct k as [|[|[|[|[|[|k]]]]]]; try lia. cbn [firstn]. do 6 f_equal.
+      rewrite firstn_app, Hr. rewrite firstn_all2 by lia. f_equal.
+      destruct (k - 32)%nat as [|m] eqn:Em; [lia|]. cbn [firstn]. f_equal. f_equal. lia. }
+    rewrite HPk.
+    rewrite (parse_head l3 (h_version h) (h_random h) (h_sid h) (firstn (k - 39) (h_sid h)) []);
+      auto; try reflexivity.
+    - rewrite firstn_length.
+      replace (Nat.min (k - 39) (length (h_sid h)) <? length (h_sid h))%nat with true by (symmetry; apply Nat.ltb_lt; lia).
+      reflexivity.
+    - rewrite firstn_length. cbn [length]. lia.
+    - right. rewrite firstn_length. split; [lia|reflexivity]. }
+  apply Nat.ltb_ge in EP.
+  rewrite firstn_app, firstn_all2 by lia. rewrite HP.
+  unfold P. rewrite (parse_head l3 (h_version h) (h_random h) (h_sid h) (h_sid h)); auto; try reflexivity.
+  2:{ rewrite firstn_length, app_length. lia. }
+  replace (length (h_sid h) <? length (h_sid h))%nat with false by (symmetry; apply Nat.ltb_ge; lia).
+  set (j := (k - (39 + length (h_sid h)))%nat).
+  destruct (k <? 41 + length (h_sid h) + 2 * length (h_ciphers h))%nat eqn:E1.
+  { apply Nat.ltb_lt in E1. unfold B1. rewrite p1_cut by lia. reflexivity. }
+  apply Nat.ltb_ge in E1.
+  rewrite firstn_app, firstn_all2 by lia. fold B1. rewrite HB1. unfold B1. rewrite p1_full.
+  set (j2 := (j - (2 + 2 * length (h_ciphers h)))%nat).
+  destruct (k <? 42 + length (h_sid h) + 2 * length (h_ciphers h) + length (h_comp h))%nat eqn:E2.
+  { apply Nat.ltb_lt in E2. unfold R. rewrite p2_cut by lia. reflexivity. }
+  apply Nat.ltb_ge in E2.
+  unfold R.
+  change (nlen (h_comp h) :: h_comp h ++ be16 (nlen (enc_exts (h_exts h))) ++ enc_exts (h_exts h))
+    with ((nlen (h_comp h) :: h_comp h) ++ be16 (nlen (enc_exts (h_exts h))) ++ enc_exts (h_exts h)).
+  rewrite firstn_app, firstn_all2 by (cbn [length]; lia).
+  cbn [app]. rewrite p2_full. rewrite tail_cut; [reflexivity|reflexivity|]. cbn [length]. lia.
 Qed.
